@@ -263,32 +263,51 @@ def check_tables(prog, ctx):
 
 
 def check_sorted(prog, ctx):
+    """R16.5: index constructors canonicalise (sort) the charge table - decided by abstract evaluation of
+    BlockIndex.__init__ / copy_with on unsorted tables; densification iterates sorted charges."""
+    from engine.minieval import Evaluator, Obj, Raised, Unsupported
+
     rid = "R16.5"
     bi = prog.cls("BlockIndex")
     init = bi.methods["__init__"]
-    assigns = [n for n in walk_own(init.node) if isinstance(n, ast.Assign) and src(n.targets[0]) == "self._chargemap"]
-    ctx.need(assigns, "BlockIndex.__init__ no longer assigns self._chargemap")
-    for a in assigns:
-        ctx.check(src(a.value).startswith("dict(sorted("), rid, init, a, src(a),
-                  "BlockIndex.__init__ stores the charge table sorted by charge")
     cw = bi.methods["copy_with"]
-    a = [n for n in walk_own(cw.node) if isinstance(n, ast.Assign) and src(n.targets[0]) == "new._chargemap"]
-    ctx.need(len(a) == 1, "BlockIndex.copy_with no longer assigns new._chargemap")
-    v = a[0].value
-    ok = isinstance(v, ast.IfExp) and src(v.test) == "chargemap is None" and src(v.body) == "self._chargemap.copy()"
-    if ok:
-        leafs = [v.orelse.body, v.orelse.orelse] if isinstance(v.orelse, ast.IfExp) else [v.orelse]
-        ok = all(src(x).startswith("dict(sorted(") for x in leafs)
-    ctx.check(ok, rid, cw, a[0], src(a[0])[:120], "BlockIndex.copy_with sorts an externally supplied charge table")
+    unsorted = {2: 1, -1: 3, 0: 2, 1: 1}
+    bad = None
+    try:
+        for given in (dict(unsorted), list(unsorted.items()), tuple(unsorted.items())):
+            ev = Evaluator(prog)
+            ix = ev.apply(bi, [given], {"dual": True}, init)
+            cm = ix.fields.get("_chargemap")
+            if not isinstance(cm, dict) or list(cm) != sorted(unsorted) or cm != unsorted:
+                bad = bad or f"BlockIndex({type(given).__name__}) stores charge table {cm}"
+            if ix.fields.get("_dual") is not True:
+                bad = bad or "BlockIndex(..., dual=True) does not store the direction"
+        ev = Evaluator(prog)
+        base = ev.apply(bi, [{0: 1}], {}, init)
+        for given in (dict(unsorted), list(unsorted.items())):
+            new = ev.call(cw, [], {"chargemap": given}, self_obj=base)
+            cm = new.fields.get("_chargemap")
+            if list(cm) != sorted(unsorted) or cm != unsorted:
+                bad = bad or f"copy_with(chargemap={type(given).__name__}) stores {cm}"
+        same = ev.call(cw, [], {}, self_obj=base)
+        if same.fields.get("_chargemap") != {0: 1} or same.fields.get("_chargemap") is base.fields.get("_chargemap"):
+            bad = bad or "copy_with() without a table must carry a copy of the old (sorted) table"
+    except Unsupported as e:
+        raise AnalysisError(f"BlockIndex constructor outside the evaluable sub-language: {e}")
+    except (Raised, KeyError, TypeError) as e:
+        bad = bad or f"{type(e).__name__}: {getattr(e, 'what', e)}"
+    ctx.check(bad is None, rid, init, init.node, "sorted charge tables",
+              "BlockIndex.__init__ and copy_with store an externally supplied charge table (dict or pairs) sorted by charge"
+              + ("" if bad is None else f" — witness: {bad}"))
     td = prog.func("symmray.abelian_core:AbelianArray.to_dense")
-    loops = [n for n in ast.walk(td.node) if isinstance(n, ast.comprehension) and "charges" in src(n.iter)]
+    loops = [n for n in ast.walk(td.node) if isinstance(n, (ast.comprehension, ast.For)) and "charges" in src(n.iter)]
     ctx.check(len(loops) == 1 and src(loops[0].iter).startswith("sorted("), rid, td, td.node, "charge iteration",
               "to_dense concatenates charge blocks in sorted charge order")
     fdn = prog.func("symmray.abelian_core:AbelianArray.from_dense")
-    idx = [c for c in walk_own(fdn.node) if isinstance(c, ast.Call) and src(c.func) == "BlockIndex"]
+    idx = [c for c in ast.walk(fdn.node) if isinstance(c, ast.Call) and src(c.func) == "BlockIndex"]
     ctx.check(len(idx) == 1, rid, fdn, fdn.node, "index construction",
               "from_dense builds its indices through the (sorting) BlockIndex constructor")
-    ctx.minimum(rid, 5, "init x2, copy_with, to_dense, from_dense")
+    ctx.minimum(rid, 3, "constructors, to_dense, from_dense")
 
 
 def run(prog, ctx):
